@@ -35,7 +35,9 @@ man = {
                  "kind_free_text": "bounded symbolic execution of the compiled real code (Kani 0.68 -> CBMC 6.11 -> CaDiCaL); harness crates under /verif/harness depend on /repo by path and are rebuilt from its working tree on every run"}],
     "checks": checks,
     "not_applicable": na,
-    "notes": "All checks are one technique family (solver-based checking of the real code). See DESIGN.md; genuine defects found are in known_findings.json.",
+    "notes": "All checks are one technique family (solver-based checking of the real code: Kani -> CBMC -> CaDiCaL over the compiled crates). Every property has a check; clauses that are NOT decided are named in the check's level_note / evidence.outside_bounds and in DESIGN.md section 9: "
+             "C17 legality of book moves; C13 end-to-end symmetry of two searches (component lemmas only); C15 the std-HashMap repetition table; C06/C05 the FEN placement loop on symbolic bytes (token decoder, all other fields and validation are decided); C11/C12 compose a root-loop query and a one-level query by induction. "
+             "Genuine defects found (14 fix: commits, 2 recorded known findings) are in known_findings.json; seeded changes and which check catches each are in seeded/*/result.json and DESIGN.md section 13.",
 }
 json.dump(man, open("/verif/MANIFEST.json", "w"), indent=1)
 print("claimed:", [c["property_id"] for c in checks])
